@@ -232,7 +232,7 @@ def run(ctx):
     with open(os.path.join(ctx.work, "c47_in.jsonl"), "w") as f:
         for c in cases:
             f.write(json.dumps({k: v for k, v in c.items() if k != "profile"}) + "\n")
-    for fn in ("c47_out.jsonl", "c47_burst.jsonl"):
+    for fn in ("c47_out.jsonl", "c47_burst.jsonl", "c47_publish.jsonl"):
         p = os.path.join(ctx.work, fn)
         if os.path.exists(p):
             os.remove(p)
@@ -294,7 +294,7 @@ def run(ctx):
             ctx.notes.append("model and implementation also disagree on %d histories (the oracle already reported a concrete failing history)" % mism)
 
     # ---- concurrent probe bursts, real goroutines
-    rc3, out3 = ctx.go_test("breaker", "^TestVerifC47Burst", ["zz_verif_C47_test.go"], race=ctx.thorough,
+    rc3, out3 = ctx.go_test("breaker", "^TestVerifC47(Burst|PublishOrder)", ["zz_verif_C47_test.go"], race=ctx.thorough,
                             env={"VERIF_C47_ROUNDS": "600" if ctx.thorough else "80"})
     bursts = read_jsonl(os.path.join(ctx.work, "c47_burst.jsonl"))
     if rc3 != 0 and "DATA RACE" in out3:
@@ -307,6 +307,20 @@ def run(ctx):
             worst = bu
     if worst:
         ctx.violation("breaker:halfopen-cap-concurrent", "%d probes ran concurrently while half-open with halfOpenMaxCalls=%d (%d callers)" % (worst["MaxConcurrent"], worst["Cap"], worst["Callers"]), worst)
+
+    # ---- publication order of Open vs its deadline (deterministic pause points inside the tripping caller)
+    pubs = read_jsonl(os.path.join(ctx.work, "c47_publish.jsonl"))
+    for pb in pubs:
+        bad = pb["Admitted"] or pb["NotErrOpen"] or any(x != OPEN for x in (pb["StateAfter"] or [])) or pb["FinalState"] != OPEN
+        if bad:
+            ctx.violation("breaker:open-visible-before-deadline",
+                          "%s at clock %d (open timeout %d, the clock never advances): a caller that saw State()==Open while the tripping caller was still inside the transition "
+                          "called Execute and was %s; state afterwards: %s (must stay open until %d)" % (
+                              pb["Scenario"], pb["Now"], pb["Timeout"], "ADMITTED" if pb["Admitted"] else ("not answered with ErrOpen" if pb["NotErrOpen"] else "rejected"),
+                              SN[pb["FinalState"]], pb["Now"] + pb["Timeout"]), pb)
+            break
+    if rc3 == 0 and len(pubs) < 2:
+        ctx.tie_broken("go-harness breaker publication-order scenario produced no result", pubs)
 
     # ---- theorems
     if not ctx.coq_property():
@@ -322,7 +336,7 @@ def run(ctx):
         "distinct_nontrivial": len(nontrivial),
         "rule": "a history is non-trivial when it walks closed->open, open->half-open and a half-open exit (to closed or back to open); distinct by (config, intents)",
         "event_histogram": hist, "transitions_seen": trans,
-        "burst_rounds": len(bursts), "churn_probe_admissions": sum(b["Admitted"] for b in bursts if b["Phase"] == "half-open-churn"), "burst_max_concurrent_over_cap": max([b["MaxConcurrent"] - b["Cap"] for b in bursts] or [None]),
+        "publication_order_scenarios": [{k: pb[k] for k in ("Scenario", "Pauses", "ProbesWhileOpen")} for pb in pubs], "burst_rounds": len(bursts), "churn_probe_admissions": sum(b["Admitted"] for b in bursts if b["Phase"] == "half-open-churn"), "burst_max_concurrent_over_cap": max([b["MaxConcurrent"] - b["Cap"] for b in bursts] or [None]),
         "model_mismatching_histories": mism,
         "samples": [{k: v for k, v in c.items() if k != "intents"} | {"intents": c["intents"][:6]} for c in cases[:2] + cases[len(cases) // 2: len(cases) // 2 + 2]],
         "theorems": THEOREMS,
